@@ -95,3 +95,27 @@ Proof.
 Qed.
 Example C01_ex_computes : Qc_eq_bool (exres (pp_r1 exp) (q 9)) 0%Qc = true /\ Qc_eq_bool (exres (Qcplus (pp_r1 exp) 1%Qc) (q 9)) 0%Qc = false.
 Proof. split; vm_compute; reflexivity. Qed.
+
+(** the textbook residual of an honest proof is zero; with C03_batch_accepts_if_all_accept: any batch of
+    honest members (mixed aggregation factors, any weights) ends with the identity *)
+From BP Require Import Proofs.CompleteBatchP.
+Theorem C01_honest_residual_zero : forall (K : Fld), FldOk K -> forall (M : Mod K), ModOk K M -> forall (g : gens K M)
+  bits cap (values : list N) (promises : list (option N)) (blindings : list (list K)) (nn : nonces K) (ch : pchals K) a,
+  let m := length values in
+  let N := m * bits in
+  let T := length (g_Gb g) in
+  1 <= bits -> m = 2 ^ a -> m <= cap ->
+  length (g_G g) = bits * cap -> length (g_Hv g) = bits * cap ->
+  N = 2 ^ length (pc_es ch) ->
+  pc_y ch <> f0 K -> fsub K (pc_y ch) (f1 K) <> f0 K -> pc_e ch <> f0 K -> Forall (fun e => e <> f0 K) (pc_es ch) ->
+  length promises = m -> length blindings = m -> Forall (fun r => length r = T) blindings ->
+  wf_nonces K T (length (pc_es ch)) nn ->
+  Forall (fun vp => match snd vp with Some mv => (mv <= fst vp)%N | None => True end) (combine values promises) ->
+  Forall (fun vp => (offset_value (fst vp) (snd vp) < 2 ^ N.of_nat bits)%N) (combine values promises) ->
+  let p := prove_core K M bits cap g values promises blindings nn ch in
+  let commitments := map (fun vr => commit K M g (fofN K (fst vr)) (snd vr)) (combine values blindings) in
+  spec_residual K M bits (g_H g) (g_Gb g) (firstn N (g_G g)) (firstn N (g_Hv g)) commitments promises
+    (mkRproof K M (pp_A p) (combine (pp_L p) (pp_R p)) (pp_A1 p) (pp_B p) (pp_r1 p) (pp_s1 p) (pp_d1 p))
+    (pc_y ch) (pc_z ch) (pc_es ch) (pc_e ch) = v0 M.
+Proof. exact honest_residual_zero. Qed.
+Print Assumptions C01_honest_residual_zero.
